@@ -114,15 +114,7 @@ class Flow(object):
         elif name.name in self.scope.nonlocals:
             # rebinds a variable of an enclosing function: the name stays
             # visible here but does not become a local of this scope
-            funcs = []
-            owner = getattr(self.scope, 'parent', None)
-            while owner is not None:
-                if isinstance(owner, FuncScope):
-                    funcs.append(owner)
-                owner = getattr(owner, 'parent', None)
-            owners = [f for f in funcs if name.name in f.locals] or funcs
-            if owners:
-                name.scope = owners[0]
+            self.scope.top.add_nonlocal(name)
             insert_loc(self._names, name)
         else:
             self.scope.locals.add(name.name)
@@ -258,6 +250,7 @@ class SourceScope(Scope):
         self._star_imports = []
         self._attr_assigns = []
         self._global_names = {}
+        self._nonlocal_names = []  # type: list[Name]
 
     def __repr__(self):
         # type: () -> str
@@ -316,6 +309,25 @@ class SourceScope(Scope):
     def add_global(self, name):
         # type: (Name) -> None
         self._global_names[name.name] = name
+
+    def add_nonlocal(self, name):
+        # type: (Name) -> None
+        self._nonlocal_names.append(name)
+
+    def resolve_nonlocals(self):
+        # type: () -> None
+        """Attribute nonlocal bindings to the enclosing function that owns the variable"""
+        for name in self._nonlocal_names:
+            funcs = []
+            owner = getattr(name.scope, 'parent', None)
+            while owner is not None:
+                if isinstance(owner, FuncScope):
+                    funcs.append(owner)
+                owner = getattr(owner, 'parent', None)
+            owners = [f for f in funcs if name.name in f.locals] or funcs
+            if owners:
+                name.scope = owners[0]
+        self._nonlocal_names[:] = []
 
     def add_flow(self, flow):
         # type: (Flow) -> Flow
